@@ -313,11 +313,14 @@ def r_keys(model, rep):
     P = lambda n: ("param", n)
     canon = ("idx", ("call", ("attr", S, "_check_nevra"), (P("nevra"),), ()), 0)
     scanon = ("idx", ("call", ("attr", S, "_check_nevra"), (P("srpm_nevra"),), ()), 0)
+    def nk(t):
+        """_check_nevra(x, <name used in messages>) is _check_nevra(x)"""
+        return T.subst(t, lambda y: ("call", y[1], y[2][:1], ()) if y[0] == "call" and y[1] == ("attr", S, "_check_nevra") and y[2] else None)
     stores = [ev for ev in cx.events if ev.kind == "store" and T.root_of(ev.target) == S]
     ok, msg = len(stores) == 1, "expected exactly one insertion into self.rpms"
     if ok:
         st = stores[0]
-        tgt = st.target
+        tgt = nk(st.target)
         want_path = ("sub", ("call", ("attr", ("call", ("attr", ("call", ("attr", ("attr", S, "rpms"), "setdefault"), (P("variant"), ("dict", ())), ()),
                                                         "setdefault"), (P("arch"), ("dict", ())), ()), "setdefault"),
                              (("phi", (scanon, canon)), ("dict", ())), ()), canon)
@@ -337,12 +340,13 @@ def r_keys(model, rep):
                msg="" if ok else "stored record is not {sigkey: lower-cased sigkey (None kept), path: path, category: category}: %s" % T.show(v))
         # lower() only skipped for None
         low = [ev for ev in cx.events if ev.kind == "call" and ev.value == ("call", ("attr", P("sigkey"), "lower"), (), ())]
-        ok = bool(low) and low[0].guards and low[0].guards[-1] == (("cmp", ("is not",), (P("sigkey"), ("const", None))), True)
+        ok = bool(low) and facts.guard_atoms(facts.own_guards(cx, low[0])) == {
+            facts.canon_guard((("cmp", ("is not",), (P("sigkey"), ("const", None))), True))}
         rep.ob("R-KEYS", "Rpms.add:sigkey-lowered-unless-None", bool(ok), site=cx.site(f.node),
                msg="" if ok else "signing key must be lower-cased whenever it is not None")
     # srpm key: parsed when given, own nevra otherwise
-    sc = [ev for ev in cx.events if ev.kind == "call" and ev.value == scanon[1]]
-    ok = bool(sc) and sc[0].guards[-1] == ((P("srpm_nevra")), True)
+    sc = [ev for ev in cx.events if ev.kind == "call" and nk(ev.value) == scanon[1]]
+    ok = bool(sc) and facts.guard_atoms(facts.own_guards(cx, sc[0])) == {facts.canon_guard((P("srpm_nevra"), True))}
     rep.ob("R-KEYS", "Rpms.add:srpm-key-canonical", bool(ok), site=cx.site(f.node),
            msg="" if ok else "the source package key must be the canonical form of srpm_nevra when given")
     # ---- Modules.add ----------------------------------------------------------------------------------
